@@ -192,8 +192,19 @@ def k_key(k):
     return "%s %s %s" % (k.get("rule"), k.get("function"), k.get("role"))
 
 
+def _same_function(a, b) -> bool:
+    """Equal, or the same private helper after a move inside its module (into a mixin, to module level, back): a
+    private helper is identified by its own name, not by the class that happens to hold it."""
+    if a == b:
+        return True
+    if not a or not b:
+        return False
+    sa_, sb = a.rsplit(".", 1)[-1], b.rsplit(".", 1)[-1]
+    return sa_ == sb and sa_.startswith("_") and not sa_.endswith("__")
+
+
 def match_known(r: Result, open_known):
     for k in open_known:
-        if k.get("rule") == r.rule and k.get("function") == r.function and k.get("role") == r.role:
+        if k.get("rule") == r.rule and _same_function(k.get("function"), r.function) and k.get("role") == r.role:
             return k
     return None
